@@ -48,6 +48,9 @@ CHECKS = {
     'C18': dict(
         technique='static analysis: zero-count item enumerations with positive controls, callee allow/deny lists on resolved MIR calls, receiver/who-writes facts, RNG dataflow for the ephemeral key, compile-time Send+Sync+Freeze witnesses over all suites decided by rustc',
         text='Static analysis: no statics with state, thread-locals, interior mutability, or user unsafe anywhere in the crate; no ambient-state callee; export takes &self and writes nothing, all context writers take &mut self; the ephemeral key is derived from bytes drawn from the caller\'s RNG in the same call; Send+Sync+Freeze of every public type for all AEAD x KDF x KEM combinations is decided by the type checker on a generated witness crate (with a non-vacuity twin). Data-race freedom and order independence then follow from Rust\'s guarantees for safe code; dependency crates are assumed free of hidden global state.'),
+    'C11': dict(
+        technique='static analysis: provenance term of export vs RFC 9180 §5.3, error-mapping and pass-through proof, single-writer enumeration + rustc Freeze witnesses (history independence), CFG divergence of the export-only AEAD',
+        text='Static analysis: export is LabeledExpand(exporter_secret, "sec", ctx, L) on both roles with errors mapped to KdfOutputTooLong; it takes &self, the contexts are Freeze for all suites (compiler witness) and exporter_secret/suite_id are written only by the constructor, hence the result is independent of the call history; exporter_secret = LabeledExpand(secret, "exp", ksc, Nh); the HKDF length verdict is propagated unchanged and 255*Nh <= 65535; the export-only AEAD diverges on seal/open. The 255*Nh comparison itself lives in the hkdf crate (trusted) and output values are not computed.'),
     'C12': dict(
         technique='static analysis: type-level size table against RFC 9180 Table 2/5, guard-dominance on MIR for every from_bytes/write_exact impl, decision tables of the two length helpers',
         text='Static analysis: RFC sizes Npk/Nsk/Nenc/Ndh/Nt at type level for every Serializable impl; every from_bytes starts with the exact-length guard (expected = Self::OutputSize, given = len) dominating all other uses of the input, or delegates the whole input; every write_exact has a mechanism that panics exactly on a length mismatch before any partial write; helper decision tables; NIST keys are encoded uncompressed. The round-trip/canonicity clause (from_bytes(to_bytes(x)) == x) is numerical inside the dependency encoders and is not decided.'),
